@@ -2,7 +2,7 @@
     Property theorems only.  The statements are about [combine_paths], the model of
     sciparse::path::combinator::combine, for every hash function standing for SHA-256 and every
     HashMap iteration order (any function returning a permutation). *)
-From Sci Require Import Combine.Model Combine.Spec Combine.Obs Combine.Proofs Combine.ProofsC19 Combine.ProofsC04 Combine.ProofsMeta Combine.ProofsPath Combine.ProofsWF Combine.SpecRules Combine.ProofsSound Combine.ProofsIfaces Combine.ProofsOrder Combine.ProofsComplete Combine.ProofsGraph Combine.ProofsPerm Combine.ProofsTies Combine.ProofsHops Combine.ProofsLoopfree Combine.ProofsSorted.
+From Sci Require Import Combine.Model Combine.Spec Combine.Obs Combine.Proofs Combine.ProofsC19 Combine.ProofsC04 Combine.ProofsMeta Combine.ProofsPath Combine.ProofsWF Combine.SpecRules Combine.ProofsSound Combine.ProofsIfaces Combine.ProofsOrder Combine.ProofsComplete Combine.ProofsGraph Combine.ProofsPerm Combine.ProofsTies Combine.ProofsHops Combine.ProofsLoopfree Combine.ProofsSorted Combine.Enum Combine.ProofsEnum Combine.ProofsDecode Combine.ProofsReparse Combine.ProofsFp.
 From Coq Require Import Permutation Sorted.
 Local Open Scope N_scope.
 
@@ -94,6 +94,29 @@ Proof.
     exact (combine_fp_cost Hid Hfp ord_v ord_e src dst cores non_cores cand Hv He Hwf Hd Hne Hcand x y Hx Hy (Hinj x y Hx Hy Hfp')).
 Qed.
 Print Assumptions combine_sorted.
+
+(** [combine_sorted] with the hypothesis on the hash in its literal form: the fingerprint hash
+    [Hfp] (SHA-256 in the implementation) is injective on the byte strings hashed for the
+    candidates of this call, and the fields of the input segments fit their Rust types (so the
+    2-byte encodings of interface ids in the hashed string are faithful). *)
+Theorem combine_sorted_injective :
+  forall Hid Hfp ord_v ord_e src dst cores non_cores out cand,
+    order_ok ord_v ord_e ->
+    Forall wf_segment (cores ++ non_cores) -> peer_sig_distinctb (cores ++ non_cores) = true ->
+    Forall segment_typed (cores ++ non_cores) ->
+    combine_paths Hid Hfp ord_v ord_e src dst cores non_cores = Ok out ->
+    candidate_paths Hid Hfp ord_v ord_e src dst cores non_cores = Ok cand ->
+    (forall x y, In x cand -> In y cand ->
+       Hfp (fp_input (sp_src x) (sp_dst x) (sp_segs x)) = Hfp (fp_input (sp_src y) (sp_dst y) (sp_segs y)) ->
+       fp_input (sp_src x) (sp_dst x) (sp_segs x) = fp_input (sp_src y) (sp_dst y) (sp_segs y)) ->
+    StronglySorted N.le (map path_cost out).
+Proof.
+  intros Hid Hfp ord_v ord_e src dst cores non_cores out cand Hord Hwf Hd Hty Hout Hcand Hinj.
+  apply (combine_sorted Hid Hfp ord_v ord_e src dst cores non_cores out cand Hord Hwf Hd Hout Hcand).
+  destruct Hord as [Hv He].
+  exact (candidates_faithful Hid Hfp ord_v ord_e src dst cores non_cores cand Hv He Hty Hcand Hinj).
+Qed.
+Print Assumptions combine_sorted_injective.
 
 (** Each route once: no two returned paths have the same source, destination and sequence of
     hop-field (ConsIngress, ConsEgress) pairs.  Holds for every input and every hash function. *)
@@ -387,3 +410,91 @@ Proof.
   - vm_compute. reflexivity.
   - eexists _, _. split; [vm_compute; reflexivity|]. split; [vm_compute; reflexivity|]. split; vm_compute; reflexivity.
 Qed.
+
+(** The executable enumerator of [Enum.v] -- the oracle the correspondence evaluates against
+    the implementation's output -- lists only valid combinations ... *)
+Theorem enum_sound :
+  forall cores non_cores src dst us,
+    In us (combinations cores non_cores src dst) -> ValidCombination cores non_cores src dst us.
+Proof. exact enum_sound_lemma. Qed.
+Print Assumptions enum_sound.
+
+(** ... and lists every valid combination that does not pass through the destination early
+    (those that do have a loop, see [combine_complete]). *)
+Theorem enum_complete :
+  forall cores non_cores src dst us,
+    ValidCombination cores non_cores src dst us -> NoEarlyDst dst us ->
+    In us (combinations cores non_cores src dst).
+Proof. exact enum_complete_lemma. Qed.
+Print Assumptions enum_complete.
+
+(** Completeness with exact membership: as [combine_complete], and where the path of the
+    combination has no duplicate among the candidates (no other candidate with its
+    fingerprint) the path ITSELF is in the result. *)
+Theorem combine_complete_exact :
+  forall Hid Hfp ord_v ord_e src dst cores non_cores out cand uses,
+    order_ok ord_v ord_e ->
+    wf_input cores non_cores ->
+    combine_paths Hid Hfp ord_v ord_e src dst cores non_cores = Ok out -> src <> dst ->
+    candidate_paths Hid Hfp ord_v ord_e src dst cores non_cores = Ok cand ->
+    ValidCombination cores non_cores src dst uses ->
+    exists l,
+      Forall2 (EdgeOfUse Hid) l uses
+      /\ forall p, sol_path Hfp (mkSol l (VAS dst) (edges_weight l)) = Ok (Some p) -> has_loops p = Ok false ->
+           Forall2 SegOfUse (sp_segs p) uses
+           /\ ((forall c, In c cand -> sp_fp c = sp_fp p -> c = p) -> In p out).
+Proof.
+  intros Hid Hfp ord_v ord_e src dst cores non_cores out cand uses Hord Hwf Hout Hne Hcand Hvc.
+  destruct (combine_complete Hid Hfp ord_v ord_e src dst cores non_cores out uses Hord Hwf Hout Hne Hvc) as (l & H2 & Hl).
+  exists l. split; [exact H2|]. intros p Hsp Hloop. destruct (Hl p Hsp) as [Hseg Hq]. split; [exact Hseg|].
+  intros Huniq. destruct (Hq Hloop) as (q & Hqo & Hfq & _).
+  destruct (combine_stages _ _ _ _ _ _ _ _ _ Hout) as [[E _]|(g & cand' & _ & _ & _ & Hc' & _ & Hf)];
+    [apply N.eqb_eq in E; contradiction|].
+  rewrite Hcand in Hc'. inversion Hc'; subst cand'.
+  destruct (filter_duplicates_In _ _ _ _ _ Hf Hqo) as [[]|Hqc].
+  rewrite <- (Huniq q Hqc Hfq). exact Hqo.
+Qed.
+Print Assumptions combine_complete_exact.
+
+(** Tie between the enumeration oracle and the theorems: every combination the enumerator
+    lists for a well-formed input is represented in the result exactly as [combine_complete]
+    says (its chain of graph edges exists; its path, if produced and loop-free, is in the
+    result up to a duplicate of the same fingerprint with an expiry at least as late). *)
+Theorem enumerated_combinations_are_returned :
+  forall Hid Hfp ord_v ord_e src dst cores non_cores out us,
+    order_ok ord_v ord_e ->
+    wf_input cores non_cores ->
+    combine_paths Hid Hfp ord_v ord_e src dst cores non_cores = Ok out -> src <> dst ->
+    In us (combinations cores non_cores src dst) ->
+    exists l,
+      Forall2 (EdgeOfUse Hid) l us
+      /\ forall p, sol_path Hfp (mkSol l (VAS dst) (edges_weight l)) = Ok (Some p) ->
+           Forall2 SegOfUse (sp_segs p) us
+           /\ (has_loops p = Ok false ->
+               exists q, In q out /\ sp_fp q = sp_fp p /\ path_expiration p <= path_expiration q).
+Proof.
+  intros Hid Hfp ord_v ord_e src dst cores non_cores out us Hord Hwf Hout Hne Hin.
+  exact (combine_complete Hid Hfp ord_v ord_e src dst cores non_cores out us Hord Hwf Hout Hne (enum_sound_lemma _ _ _ _ _ Hin)).
+Qed.
+Print Assumptions enumerated_combinations_are_returned.
+
+(** ... and conversely every returned path IS one of the combinations the enumerator lists
+    (for every input): its data-plane path consists, use by use, of the hop fields, timestamp
+    and flags of an enumerated combination.  Together with
+    [enumerated_combinations_are_returned], [combine_nodup] and [combine_sorted] this
+    identifies the result, for well-formed input, with the cost-sorted duplicate-free list of
+    the enumerated combinations whose paths are produced and loop-free -- the statement the
+    executable oracle [Enum.enum_ok] checks on the implementation's output.
+    (Remaining gap, checked by the correspondence only: that [Enum.comb_usable], the
+    enumerator's own executable test for "encodes, non-empty even interface list, loop-free",
+    coincides with [sol_path] producing a loop-free path.) *)
+Theorem returned_paths_are_enumerated :
+  forall Hid Hfp ord_v ord_e src dst cores non_cores out p,
+    order_ok ord_v ord_e ->
+    combine_paths Hid Hfp ord_v ord_e src dst cores non_cores = Ok out -> In p out ->
+    exists us, In us (combinations cores non_cores src dst) /\ Forall2 SegOfUse (sp_segs p) us.
+Proof.
+  intros Hid Hfp ord_v ord_e src dst cores non_cores out p [Hv He] Hout Hp.
+  exact (returned_path_enumerated Hid Hfp ord_v ord_e src dst cores non_cores out p Hv He Hout Hp).
+Qed.
+Print Assumptions returned_paths_are_enumerated.
